@@ -5,9 +5,7 @@ export GOFLAGS=-mod=mod GOPROXY=off GOSUMDB=off GOTOOLCHAIN=local
 cd "$(dirname "$0")/harness"
 mkdir -p ../.build
 go test -c -o ../.build/props.setup.test ./props/
-if [ -d propshook ]; then
-  go test -c -tags verif -o ../.build/propshook.setup.test ./propshook/ || true
-  go test -c -race -tags verif -o ../.build/propshook.race.setup.test ./propshook/ || true
-fi
+go test -c -tags verif -o ../.build/props.hook.setup.test ./props/
+go test -c -race -tags verif -o ../.build/props.race.setup.test ./props/
 rm -f ../.build/*.setup.test
 echo setup ok
